@@ -53,7 +53,7 @@ func newVerifier(prog *Prog) *Verifier {
 }
 
 func (v *Verifier) reset(fi *FuncInfo, con *Contract) {
-	v.eng = &Engine{C: NewTermCtx(), shapes: map[string]*Shape{}}
+	v.eng = &Engine{C: NewTermCtx(), shapes: map[string]*Shape{}, NonNeg: v.prog.nonNeg}
 	if con != nil && strings.Contains(con.Mode, "math") {
 		v.eng.MathInts = true
 	}
@@ -104,6 +104,20 @@ func (v *Verifier) bindInput(fr *Frame, st *State, o *types.Var, con *Contract, 
 	fr.byName[name] = cell
 	fr.paramCells = append(fr.paramCells, cell)
 	var wf []*Term
+	switch {
+	case sh.Kind == ShPtr && externalStruct(o.Type()):
+		// pointers to objects of external packages (big.Int, sync.Pool, ...): identity only
+		pv := v.eng.freshInput(sh, name, &wf).(PtrVal)
+		st.assume(c.ILe(pv.Ref, c.Inti(0)))
+		if !(con != nil && con.MayNil[name]) {
+			pv.Nil = c.False()
+		}
+		st.vals[cell] = pv
+		for _, w := range wf {
+			st.assume(w)
+		}
+		return
+	}
 	switch sh.Kind {
 	case ShPtr:
 		es := v.eng.ptrElemShape(sh)
@@ -234,7 +248,14 @@ func (v *Verifier) verifyCase(fi *FuncInfo, con *Contract, rep *FuncReport, case
 				rep.Rejected = u.msg + where
 				return
 			}
-			rep.Rejected = fmt.Sprintf("engine panic: %v\n%s", r, debug.Stack())
+			stack := strings.Split(string(debug.Stack()), "\n")
+			var keep []string
+			for _, l := range stack {
+				if strings.Contains(l, "/verif/govc/") && !strings.Contains(l, "verify.go") && len(keep) < 6 {
+					keep = append(keep, strings.TrimSpace(l))
+				}
+			}
+			rep.Rejected = fmt.Sprintf("engine panic: %v [%s]", r, strings.Join(keep, " < "))
 		}
 	}()
 	c := v.eng.C
@@ -588,6 +609,9 @@ func (v *Verifier) heapFrameFormula(st *State, k string) *Term {
 	r := c.Bound("r", IntSort)
 	var cov []*Term
 	if strings.HasPrefix(k, "G:") {
+		if k == gBigBits || k == gAtomic {
+			cov = append(cov, c.ILt(c.Inti(0), r)) // objects allocated during the call
+		}
 		for _, t := range targets {
 			for _, gk := range t.Ghost {
 				if gk == k {
@@ -799,3 +823,16 @@ var instRounds = func() int {
 	}
 	return 4
 }()
+
+// externalStruct: *T where T is a struct type declared outside the module under verification.
+func externalStruct(t types.Type) bool {
+	p, ok := t.Underlying().(*types.Pointer)
+	if !ok {
+		return false
+	}
+	n, ok := p.Elem().(*types.Named)
+	if !ok || n.Obj().Pkg() == nil {
+		return false
+	}
+	return !strings.HasPrefix(n.Obj().Pkg().Path(), "github.com/markkurossi/mpc")
+}
